@@ -226,6 +226,15 @@ case("C04", "distinct-aggregate-union-limit-hang", "LIMIT above a UNION ALL whos
      {"outcome": "rows", "rows": [[1]]}, {"outcome": "deadlock", "deadlock_kind": "stuck_barrier", "parked_ops": ["HashAggregate/exec", "Union/exec"]},
      ["C01", "C02", "C03", "C07", "C08", "C09", "C15"], exec={"kind": "det", "policy": "fifo", "partitions": 2})
 
+for _shape, _ops, _sql in (("join_left", ["HashJoin/exec"], "SELECT * FROM (SELECT a.k, a.v, b.w FROM a LEFT JOIN b ON a.k = b.k) q LIMIT 3"),
+                           ("join_nlj_left", ["NestedLoopJoin/exec"], "SELECT * FROM (SELECT a.k, b.k FROM a LEFT JOIN b ON (a.k + 1 < b.k)) q LIMIT 3"),
+                           ("scalar_subquery", ["HashJoin/exec"], "SELECT * FROM (SELECT a.k, (SELECT max(w) FROM b WHERE b.k = a.k) FROM a) q LIMIT 3"),
+                           ("union_distinct_agg", ["HashAggregate/exec", "Union/exec"], "SELECT k FROM a GROUP BY k HAVING count(DISTINCT v) >= 0 UNION ALL SELECT k FROM b LIMIT 3")):
+    F.append({"status": "open", "property": "C04", "id": "limit-exhaustion-hang-" + _shape.replace("_", "-"),
+              "signature": {"kind": "outcome", "class": "deadlock", "deadlock_kind": "stuck_barrier", "parked_ops": _ops, "limit_over": _shape},
+              "what": "a LIMIT that is satisfied early above this shape leaves sibling partitions waiting on the operator's cross-partition barrier forever (>= 2 partitions, every schedule policy; the production executor hangs too). One executor-level defect (pipelines cut short by an exhausted downstream operator never finalize their upstream operators) seen through four shapes: LEFT hash join, LEFT nested-loop join, scalar subquery (left join), UNION ALL over a grouped DISTINCT aggregate. Of the 21 barrier-bearing shapes of C04 only these hang",
+              "example": _sql, "also": ["C03", "C15"]})
+
 case("C07", "grouping-function-argument-order", "GROUPING(args) ignores the order of its arguments and mishandles expression keys: the bitmask follows the position of the keys in the GROUP BY list instead of the argument order documented in docs/sql/query-syntax/group-by.md (rightmost argument = least significant bit)",
      ["CREATE TEMP TABLE g (k INT)", "INSERT INTO g VALUES (1)"],
      "SELECT (k % 2) AS z2, grouping((k % 2), k) AS z3 FROM g GROUP BY CUBE (k, (k % 2))",
